@@ -506,6 +506,9 @@ Section Oracle.
     replace (read_pos (e_lz e1) - read_ahead e1) with (read_pos (e_lz e) - read_ahead e) by lia.
     destruct (Z.ltb_spec (read_pos (e_lz e) - read_ahead e - 1) 0); [lia|].
     destruct (Z.leb_spec (buf_size p) (read_pos (e_lz e) - read_ahead e)); [lia|]. cbn [orb].
+    assert (Hsh : (g_base e1 =? 0) || (dict_size p <=? read_pos (e_lz e) - read_ahead e) = true).
+    { rewrite X6. unfold pidx in Hdict. destruct Hdict as [Hd0|Hd0]; apply orb_true_iff; [left; apply Z.eqb_eq|right; apply Z.leb_le]; assumption. }
+    rewrite Hsh. cbn [negb].
     rewrite as_i32_id by (unfold I32_MIN, I32_MAX in *; lia).
     rewrite ck_i32_ok by (unfold I32_MIN, I32_MAX in *; lia). cbn [obind].
     unfold cap, pidx in Hcap.
@@ -1772,3 +1775,78 @@ Proof.
   { apply (l1_run_spec PS parse chunkc p _ expected W ops s [] L Ex Hok). rewrite F0. lia. }
   intros [s1 res]. rewrite C0. destruct (l1_results expected 0 ops) as [[rs c] fin]. cbn [rev app]. auto.
 Qed.
+
+(* =============================================================================================
+   LZMA2Writer, top level *)
+
+(* LZMA2Writer (repaired history policy) under EVERY call history with flushes, chunk_size or not,
+   EVERY parser strategy and range-coder oracle: no panic — every buffer index is in range, in
+   particular the slices write_uncompressed copies out of the window (uncompressed fallback) —,
+   the fuel of the loops suffices, every write returns the whole slice, and when finish succeeds
+   every accepted byte is in exactly one chunk and the symbols coded plus the bytes the fallback
+   took over from the parser's read-ahead cover exactly the bytes accepted. *)
+Theorem lzma2_run_exact : forall (PS : Type) (parse : PS -> Z -> Z -> strat PS) (chunkc : PS -> Z -> Z * PS) (ps0 : PS)
+    normal bt4 dict nice preset chunk ops,
+  opts_ok dict nice ->
+  (match preset with Some plen => 0 <= plen | None => True end) ->
+  ops_ok ops -> ops_total ops <= 4611686018427387904 ->
+  okor (do s <- l2_new_repaired PS normal bt4 dict nice preset chunk ps0; l2_run PS parse chunkc s ops [])
+       (fun r =>
+          let '(s1, res) := r in
+          let '(rs, c, fin) := l2_results 0 ops in
+          res = rs /\ sum_fill (l2_tr _ s1) = c /\
+          (fin = true -> sum_chunk (l2_tr _ s1) = c /\ sum_sym (l2_tr _ s1) + sum_abs (l2_tr _ s1) = c)).
+Proof.
+  intros PS parse chunkc ps0 normal bt4 dict nice preset chunk ops Ho Hpl Hok Hcap.
+  eapply okor_bind; [apply (l2_new_spec PS parse chunkc normal bt4 dict nice preset chunk ps0 Ho Hpl)|].
+  intros s (p & org & W & HH & L & F0 & _ & _).
+  eapply okor_weaken.
+  { apply (l2_run_spec PS parse chunkc p W HH ops s org [] L Hok). rewrite F0. lia. }
+  intros [s1 res]. rewrite F0. destruct (l2_results 0 ops) as [[rs c] fin]. cbn [rev app]. auto.
+Qed.
+
+(* history_kept: a window move shifts by a multiple of 64 (so buffer positions and logical
+   positions agree modulo 64: pos_mask and the literal position mask are unaffected) and keeps
+   keep_size_before bytes before read_pos + 1, together with everything after them *)
+Theorem history_kept : forall p d tr, wf_p p -> lzinv p d ->
+  buf_size p - keep_after p <= read_pos d ->
+  exists off, move_window p d tr =
+    Ok (mkLzd (read_pos d - off) (read_limit d - off) (finishing d) (write_pos d - off) (pending_size d),
+        EvMove off (write_pos d - off) :: tr) /\
+    64 <= off /\ off mod 64 = 0 /\ keep_before p <= (read_pos d - off) + 1 /\ (read_pos d - off) + 1 < keep_before p + 64.
+Proof.
+  intros p d tr W I Hl. destruct (move_window_spec p d tr W I Hl) as (off & E & O1 & O2 & O3).
+  exists off. repeat split; try assumption; lia.
+Qed.
+
+(* =============================================================================================
+   The two earlier history policies are refuted: the uncompressed fallback reads before the start
+   of the buffer (copy_uncompressed: Panic P_INDEX) *)
+
+(* extra_size_before = max(64 KiB - dict_size, mode's) (repo commit fa095d0), normal mode,
+   dict_size 4096: a 65465-byte incompressible chunk whose last consultation left 4094 bytes read
+   ahead, with a window move in between *)
+Definition old_max_witness_ops : list wop := [OpWrite 334097; OpWrite 100; OpFinish].
+Definition old_max_witness_ds : list ditem :=
+  repeat (DSym 273 273 false) 967 ++ [DSym 273 273 true; DChunk 65511] ++
+  repeat (DSym 273 273 false) 239 ++ [DSym 216 216 false; DSym 4096 1 false; DSym 0 1 true; DChunk 65511].
+
+Lemma uncompressed_fallback_in_window_max_refuted :
+  l2_replay 1 true false 4096 273 None None old_max_witness_ops old_max_witness_ds = Panic P_INDEX.
+Proof. vm_compute. reflexivity. Qed.
+
+(* the same history and decisions on the repaired policy: no panic *)
+Lemma old_max_witness_repaired :
+  match l2_replay 0 true false 4096 273 None None old_max_witness_ops old_max_witness_ds with
+  | Panic _ => False | _ => True end.
+Proof. vm_compute. exact I. Qed.
+
+(* extra_size_before = the mode's own (before fa095d0), fast mode, dict_size 4096 *)
+Definition old_mode_witness_ops : list wop := [OpWrite 268834; OpWrite 100; OpFinish].
+Definition old_mode_witness_ds : list ditem :=
+  repeat (DSym 273 273 false) 759 ++ [DSym 273 273 true; DChunk 65511] ++
+  repeat (DSym 273 273 false) 223 ++ [DSym 1 1 true; DChunk 65511].
+
+Lemma uncompressed_fallback_in_window_old_refuted :
+  l2_replay 2 false false 4096 273 None None old_mode_witness_ops old_mode_witness_ds = Panic P_INDEX.
+Proof. vm_compute. reflexivity. Qed.
